@@ -26,7 +26,8 @@
       fixed markers `strMarker` / `reprMarker` in their place;
     * click's own argument checks (`exists=True`, `dir_okay=False`, `Choice`): `--input-format` can only be AGP or TPF
       (`some .FASTA` cannot come from the command line; the model then does what `process_fh` would do with it);
-    * OS errors, text encoding (files are code-point lists);
+    * OS errors, text encoding (files are code-point lists); file-name extensions outside ASCII (`formatFromExt`,
+      see the domain note of Model/CliPlan.lean);
     * an input file equal to the output file that is NOT the first input: the model reads it as empty, which is what
       happens as long as less than one io buffer (8 KiB) has been written before it is opened; beyond that the real
       run reads back its own flushed output (observed: 600 lines written, 493 of them read back and written again);
